@@ -36,6 +36,7 @@ RULES = [
     Rule('C02.S2', 'MPFR engine methods: refuse Fractions, (prec,n) from ctx, one _mpfr_eval with the matching primitive', E.s2_mpfr_methods('C02'), 50, 'S,T'),
     Rule('C02.F1', 'round-to-odd wrapper: RoundToZero, prec+2 digits, ternary of the fixed value, sticky fold', E.f1_round_to_odd, 12, 'F'),
     Rule('C02.F2', 'every callable handed to the wrapper is a single MPFR operation', E.f2_single_operation('C02'), 15, 'F'),
+    Rule('C02.S3', 'local MPFR wrappers compute the operation they are named after (neg, abs, pow, lgamma = first component of gmp.lgamma)', E.s3_wrapper_primitives, 4, 'S,T'),
     Rule('C02.T1', 'RealEngine: ceil/floor/trunc/roundint = RTP/RTN/RTZ/RNA at n=-1; sub, fma composed of exact ops', E.t1_real_engine, 9, 'T'),
     Rule('C02.T2', 'RealEngine add/mul/div special-value arms equal the IEEE 754 tables', E.t2_real_specials, 48, 'T'),
 ]
